@@ -265,7 +265,7 @@ def write_evidence(prop, tier, seed, coverage, assumptions, wall, violations, le
     return ev
 
 
-PLANNER_DEP_PROPS = {"C02", "C03", "C04", "C05", "C09", "C13"}
+PLANNER_DEP_PROPS = {"C02", "C03", "C04", "C05", "C09", "C12", "C13"}
 
 
 class Check:
